@@ -205,6 +205,122 @@ control(seat *st, uint16_t peerproto, int isrep, const char *after)
 	vs_settle();
 }
 
+// ---- peers that go away before or during the handshake, abruptly ------------------------------------
+// For every stream transport: k connections (1 or 3 back to back) each of which connects and then
+// disappears in one of six ways - orderly close or reset (SO_LINGER 0), before the library has
+// looked at the connection (no settle in between) or just after, with 0..8 bytes of the handshake
+// written - so that the library's FIRST read or write on the new connection already fails.  The
+// error codes of that first operation differ (EPIPE, ECONNRESET, EOF) and must all leave the
+// listener accepting: afterwards a well-behaved peer connects and is served.
+enum { ED_CLOSE_NOW, ED_RESET_NOW, ED_CLOSE_LATER, ED_RESET_LATER, ED_PART_CLOSE, ED_FULL_RESET, ED_N };
+static const char *EDN[] = { "close-at-once", "reset-at-once", "close-after-accept",
+	"reset-after-accept", "partial-handshake-close", "handshake-then-reset" };
+static int
+ed_connect(seat *st)
+{
+	// like seat_connect but WITHOUT letting the library run
+	int fd;
+	if (st->tran == TR_SOCKFD) {
+		fd = vp_attach_more(st->l);
+	} else if (st->tran == TR_IPC) {
+		struct sockaddr_un sa;
+		memset(&sa, 0, sizeof(sa));
+		sa.sun_family = AF_UNIX;
+		snprintf(sa.sun_path, sizeof(sa.sun_path), "%s", st->path);
+		fd = socket(AF_UNIX, SOCK_STREAM, 0);
+		if (connect(fd, (struct sockaddr *) &sa, sizeof(sa)) != 0)
+			vs_fail("harness:peer", "ipc connect: %s", strerror(errno));
+	} else {
+		struct sockaddr_in sa;
+		memset(&sa, 0, sizeof(sa));
+		sa.sin_family      = AF_INET;
+		sa.sin_port        = htons((uint16_t) st->port);
+		sa.sin_addr.s_addr = htonl(INADDR_LOOPBACK);
+		fd                 = socket(AF_INET, SOCK_STREAM, 0);
+		if (connect(fd, (struct sockaddr *) &sa, sizeof(sa)) != 0)
+			vs_fail("harness:peer", "tcp connect: %s", strerror(errno));
+	}
+	return fd;
+}
+static void
+ed_reset(int fd)
+{
+	struct linger lg = { .l_onoff = 1, .l_linger = 0 };
+	setsockopt(fd, SOL_SOCKET, SO_LINGER, &lg, sizeof(lg));
+	close(fd);
+}
+static void
+run_early(void *arg)
+{
+	int tran = (int) (intptr_t) arg & 3, isrep = ((int) (intptr_t) arg >> 2) & 1;
+	if (tran == TR_TCP)
+		vs_tcp_grace_us = 1500;
+	vh_init(0);
+	nng_socket s;
+	uint16_t   peer;
+	if (isrep) {
+		VH_OK(nng_rep0_open(&s));
+		peer = SP_REQ;
+	} else {
+		VH_OK(nng_pair1_open_poly(&s));
+		peer = SP_PAIR1;
+	}
+	VH_OK(nng_socket_set_ms(s, NNG_OPT_RECVTIMEO, 2));
+	seat st;
+	seat_open(&st, tran, s);
+	vs_settle();
+	// a first, good connection: the listener is known to work and has a pipe
+	int warm = vs_choose(VK_ENV, 2);
+	if (warm)
+		control(&st, peer, isrep, "start");
+	int mode = vs_choose(VK_ENV, ED_N);
+	int k    = vs_choose(VK_ENV, 2) ? 3 : 1;
+	int nb   = mode == ED_PART_CLOSE ? 1 + vs_choose(VK_ENV, 7) : 0;
+	vs_log("%s %s x%d partial=%d warm=%d", TRN[tran], EDN[mode], k, nb, warm);
+	for (int i = 0; i < k; i++) {
+		int     fd   = ed_connect(&st);
+		uint8_t h[8] = { 0, 'S', 'P', 0, (uint8_t) (peer >> 8), (uint8_t) peer, 0, 0 };
+		switch (mode) {
+		case ED_CLOSE_NOW:
+			close(fd);
+			break;
+		case ED_RESET_NOW:
+			ed_reset(fd);
+			break;
+		case ED_CLOSE_LATER:
+			vs_settle();
+			close(fd);
+			break;
+		case ED_RESET_LATER:
+			vs_settle();
+			ed_reset(fd);
+			break;
+		case ED_PART_CLOSE:
+			if (write(fd, h, (size_t) nb) != nb)
+				vs_fail("harness:peer", "write");
+			close(fd);
+			break;
+		default:
+			if (write(fd, h, 8) != 8)
+				vs_fail("harness:peer", "write");
+			ed_reset(fd);
+			break;
+		}
+		vs_case();
+		vs_nontrivial();
+	}
+	vs_settle();
+	char after[80];
+	snprintf(after, sizeof(after), "%d peer(s) that %s", k, EDN[mode]);
+	control(&st, peer, isrep, after);
+	control(&st, peer, isrep, after); // and it keeps working
+	vs_outcome("%s x%d", EDN[mode], k);
+	nng_socket_close(s);
+	if (st.path[0])
+		unlink(st.path);
+	vh_fini();
+}
+
 // ---- stream cases ------------------------------------------------------------------------
 typedef struct sarg {
 	int tran;
@@ -1284,6 +1400,13 @@ main(int argc, char **argv)
 			explore(strdup(name), run_hdr, e);
 		}
 	}
+	for (int tran = 0; tran < 3; tran++)
+		for (int isrep = 0; isrep < 2; isrep++) {
+			char name[64];
+			snprintf(name, sizeof(name), "early-disconnect-%s-%s", TRN[tran],
+			    isrep ? "rep" : "pair1poly");
+			explore(strdup(name), run_early, (void *) (intptr_t) (tran | (isrep << 2)));
+		}
 	explore("udp-datagrams", run_udp, NULL);
 	explore("udp-session-data", run_udpsess, NULL);
 	explore("ws-upgrade-truncated", run_ws, (void *) 0);
